@@ -180,3 +180,79 @@ def mode_sanitised(ctx, rule, modname):
                           '%s compares `mode` with the MODE constants before / without mode = _parse_mode(mode)' % fn.name,
                           file=F_, line=first.lineno, engine='E7')
     ctx.count('functions of %s that branch on the mode' % modname, n)
+
+
+_TRAVERSERS = ('map', 'filter', 'zip', 'enumerate', 'list', 'tuple', 'sorted', 'any', 'all', 'sum', 'max', 'min', 'set', 'dict',
+               'iter', 'next', 'reversed', 'frozenset')
+
+
+def _traversals(node, name):
+    out = []
+    for x in ast.walk(node):
+        if isinstance(x, ast.comprehension) and isinstance(x.iter, ast.Name) and x.iter.id == name:
+            out.append(x.iter)
+        elif isinstance(x, ast.For) and isinstance(x.iter, ast.Name) and x.iter.id == name:
+            out.append(x.iter)
+        elif isinstance(x, ast.Call):
+            f = norm(x.func)
+            if (f in _TRAVERSERS or f.endswith('.join') or f.endswith('.extend')) \
+                    and any(isinstance(a, ast.Name) and a.id == name for a in x.args):
+                out.append(x)
+    return out
+
+
+def single_traversal(ctx, rule):
+    """dump() accepts any iterable of grids (a generator, map(), a filter): on every path through dump() the argument
+    is traversed at most once, unless it was first bound to a list/tuple of itself.  A second traversal of a one-shot
+    iterable sees nothing: the document comes out as `[]` / the empty text and every grid is lost, silently."""
+    model = ctx.model
+    try:
+        fn = model.func('dumper', 'dump')
+    except AnalysisError as e:
+        ctx.error(rule, str(e))
+        return
+    g = fn.args.args[0].arg
+    F = 'hszinc/dumper.py'
+    worst = None
+    npaths = 0
+    for p in flow.enumerate_paths(body_wo_doc(fn)):
+        npaths += 1
+        sites = []
+        material = False
+        items = []
+        for t, v in p.conds:
+            try:
+                items.append(ast.parse(t.split(' @before')[0], mode='eval').body)
+            except SyntaxError:
+                continue
+        # order: conditions and effects interleave; for counting, order only matters for materialisation, which is an effect
+        for e in p.effects:
+            if isinstance(e, ast.Assign) and len(e.targets) == 1 and norm(e.targets[0]) == g \
+                    and norm(e.value) in ('list(%s)' % g, 'tuple(%s)' % g, '[%s]' % g, '(%s,)' % g):
+                if not sites and not any(_traversals(c, g) for c in items):
+                    material = True
+                continue
+            items.append(e)
+        if p.end_node is not None:
+            items.append(p.end_node)
+        seen = set()
+        for it in items:
+            for s_ in _traversals(it, g):
+                k = (getattr(s_, 'lineno', 0), getattr(s_, 'col_offset', 0), norm(s_))
+                if k not in seen:
+                    seen.add(k)
+                    sites.append(s_)
+        if len(sites) >= 2 and not material and p.end == 'return':
+            if worst is None:
+                worst = sites
+    if worst:
+        a, b = worst[0], worst[1]
+        ctx.violation(rule, '%s::dump' % F, 'traversals of `%s`: `%s` and `%s`' % (g, norm(a)[:50], norm(b)[:50]),
+                      'hszinc.dump((g for g in grids), mode=MODE_JSON) (or map(...), filter(...), iter(list)): the first traversal '
+                      '`%s` uses the iterator up, the one that writes the grids sees nothing and the result is the well-formed but '
+                      'empty document `[]` (ZINC: the empty text) -- every grid is lost without an error' % norm(a)[:60],
+                      'dump() walks its argument twice on one path; it is only known to be iterable, not re-iterable',
+                      file=F, line=getattr(b, 'lineno', fn.lineno), engine='E6')
+    else:
+        ctx.ob(rule, 'dump() traverses its argument at most once on each of its %d paths (one-shot iterables of grids are written '
+                     'in full)' % npaths, True, '%s:%d' % (F, fn.lineno))
